@@ -93,7 +93,7 @@ impl Prop for C19 {
   fn stages(&self, ctx: &Ctx) -> Vec<Stage> {
     let mut v = vec![plain_stage("C19", ctx)];
     if ctx.tier == Tier::Thorough {
-      v.extend(crate::fuzz::campaigns("C19", &["rope_prog", "tree_prog"], ctx));
+      v.extend(crate::fuzz::campaigns("C19", &["rope_prog", "tree_prog", "sched_prog"], ctx));
     }
     v
   }
